@@ -167,7 +167,10 @@ pub fn run_threads(ctx: &Ctx) -> Report {
     let es = entries();
     let pool = history_pool(ctx, &es);
     let mut rng = ctx.rng("threads");
-    let rounds = ctx.budget(6, 120, 1);
+    // many short rounds on FRESH shared instances: whatever an instance does lazily on its first
+    // call is hit by all threads at once (they leave a spin gate together and start with the same
+    // decrypt on the same instance)
+    let rounds = ctx.budget(240, 4000, 1);
     let in_flight = Arc::new(AtomicUsize::new(0));
     let mut overlap_hist = vec![0u64; 33];
     for r in 0..rounds {
@@ -198,11 +201,15 @@ pub fn run_threads(ctx: &Ctx) -> Report {
         }
         let shared = Arc::new(shared);
         let barrier = Arc::new(Barrier::new(nthreads));
-        let iters = if cfg!(miri) { 6 } else { 400 };
+        let gate = Arc::new(AtomicUsize::new(0));
+        let iters = if cfg!(miri) { 6 } else { 40 };
+        // a decrypt case of instance 0 for the common first call
+        let first_case = shared[0].3.iter().position(|c| !c.0).unwrap_or(0);
         let mut handles = Vec::new();
         for t in 0..nthreads {
             let shared = shared.clone();
             let barrier = barrier.clone();
+            let gate = gate.clone();
             let in_flight = in_flight.clone();
             let seed = rng.next();
             handles.push(std::thread::spawn(move || {
@@ -211,10 +218,15 @@ pub fn run_threads(ctx: &Ctx) -> Report {
                 let mut maxo = 0usize;
                 let mut done = 0u64;
                 barrier.wait();
-                for _ in 0..iters {
-                    let si = lr.below(shared.len());
+                // spin gate: all threads are running before any of them starts
+                gate.fetch_add(1, Ordering::SeqCst);
+                while gate.load(Ordering::SeqCst) < nthreads {
+                    std::hint::spin_loop();
+                }
+                for it in 0..iters {
+                    let si = if it == 0 { 0 } else { lr.below(shared.len()) };
                     let (_, _, inst, cases) = &shared[si];
-                    let ci = lr.below(cases.len());
+                    let ci = if it == 0 { first_case } else { lr.below(cases.len()) };
                     let (encrypt, n, data, want) = &cases[ci];
                     // either the shared instance itself or a clone made concurrently (Arc clone of the same object)
                     let mut got = data.clone();
